@@ -293,6 +293,8 @@ def run(ctx, rep):
     check_inplace(ctx, rep)
     check_foreign_private_stores(ctx, rep)
     check_registration_listens(ctx, rep)
+    if check_parameter_setters_are_reachable(ctx, rep) < 3:
+        rep.incomplete('C11.H', 'setters-of-parametric-classes', '', 'fewer than 3 property setters found on Parametric classes')
     from sa import purity as _pur
     _pur.check_shared_class_containers(ctx, rep, 'C11.M', only=lambda m_: not m_.name.startswith('torchtree.cli'))
     check_optimizer(ctx, rep)
@@ -388,6 +390,25 @@ def check_flag_cleared_after_the_refresh(ctx, rep, rule='C11.S', only=None):
                 n += 1
                 flag = next(self_attr(t) for t in iff.body[clear].targets if self_attr(t) in flags)
                 after = [st for st in iff.body[clear + 1:] if any(isinstance(c, ast.Call) for c in ast.walk(st))]
+                # … and it goes down only when the refresh has actually run: the statements in front of the clear refresh unconditionally (a refresh nested under a further
+                # test — "did the inputs really move?" — leaves a path on which the flag is cleared over the old value)
+                before = iff.body[:clear]
+                any_call = any(isinstance(x, ast.Call) and self_attr(x.func) for st in before for x in ast.walk(st))
+
+                def refreshes(st):
+                    # the refresh is the call of the object's own method that recomputes; where the block computes inline, its stores into the object
+                    if any_call:
+                        return any(isinstance(x, ast.Call) and self_attr(x.func) for x in ast.walk(st))
+                    return any(isinstance(x, (ast.Assign, ast.AugAssign)) and any(
+                        self_attr(t) and self_attr(t) not in flags for t in (x.targets if isinstance(x, ast.Assign) else [x.target])) for x in ast.walk(st))
+                top = [st for st in before if not isinstance(st, (ast.If, ast.Try, ast.While, ast.For)) and refreshes(st)]
+                nested = [st for st in before if isinstance(st, ast.If) and refreshes(st) and not (st.orelse and all(refreshes(b) for b in [ast.Module(body=st.body, type_ignores=[]), ast.Module(body=st.orelse, type_ignores=[])]))]
+                if before and not top and nested:
+                    rep.bad(rule, f"{mname.replace('torchtree.', '')}::{scope}::self.{flag}::refreshed-whenever-it-is-cleared", where(m, nested[0]), {'condition': norm_text(nested[0].test)[:80]},
+                            f"{scope} clears self.{flag} after a refresh that only runs when `{norm_text(nested[0].test)[:60]}`: on the other path the flag goes down over the value "
+                            f"computed for an earlier state (a change judged too small to matter is never seen again, and such changes add up)")
+                else:
+                    rep.ok(rule, f"{mname.replace('torchtree.', '')}::{scope}::self.{flag}::refreshed-whenever-it-is-cleared", where(m, iff), None)
                 rep.check(rule, f"{mname.replace('torchtree.', '')}::{scope}::self.{flag}::cleared-after-the-refresh", not after, where(m, after[0] if after else iff.body[clear]),
                           {'statements_after_the_clear': [norm_text(a)[:60] for a in after]},
                           f"{scope} clears self.{flag} and THEN runs `{norm_text(after[0])[:60] if after else ''}`: if that evaluation raises, the flag stays down over the value of the "
@@ -1601,6 +1622,34 @@ def check_foreign_private_stores(ctx, rep, rule='C11.W'):
                 f"{scope}: `{norm_text(st)[:60]}` writes the private storage of another object: its tensor setter — which is what tells its listeners — is bypassed, so every model "
                 f"that listens to that object keeps the value it computed before")
     rep.ok(rule, 'package::private-storage-is-written-by-its-owner-only', '', {'modules_scanned': n})
+
+
+def check_parameter_setters_are_reachable(ctx, rep, rule='C11.H', only=None):
+    """`Parametric.__setattr__` takes every assignment of an AbstractParameter (or Model) to an attribute of a Parametric object: it registers the value under that name and
+    returns, a property setter of the same name is never entered.  A setter written to receive a parameter — and to re-wire caches, raise the dirty flag, tell the listeners
+    — is therefore dead code: `model.mu = parameter` stores the parameter and nothing else happens."""
+    from sa.members import Kinds, PARAM, MODEL
+    kinds = Kinds(ctx.classes)
+    n = 0
+    for cls in sorted(ctx.classes.classes.values(), key=lambda c: c.qualname):
+        if not cls.has_base('torchtree.core.parametric.Parametric'):
+            continue
+        if only is not None and not only(cls):
+            continue
+        for name, fn in cls.setters.items():
+            n += 1
+            a = fn.args.args[1] if len(fn.args.args) > 1 else None
+            ks = kinds.annotation_kinds(cls.module, a.annotation) if a is not None and a.annotation is not None else set()
+            takes = bool(ks & {PARAM, MODEL})
+            if not takes and a is not None:
+                # un-annotated: the body treats the value as a parameter (stores it into a slot the class reads `.tensor` of)
+                stored = {self_attr(t) for st in ast.walk(fn) if isinstance(st, ast.Assign) and isinstance(st.value, ast.Name) and st.value.id == a.arg for t in st.targets if self_attr(t)}
+                takes = any(isinstance(x, ast.Attribute) and x.attr == 'tensor' and self_attr(x.value) in stored for f in cls.methods.values() for x in ast.walk(f))
+            rep.check(rule, f"{cls.qualname}::{name}.setter::reachable-for-what-it-is-given", not takes, where(cls.module, fn), {'value_kinds': sorted(ks)},
+                      f"{cls.name}.{name} has a property setter meant for a parameter / model, but {cls.name} is Parametric: `obj.{name} = <parameter>` is intercepted by "
+                      f"Parametric.__setattr__, which registers the value and never calls the setter — the caches the setter re-wires keep the old parameter and the listeners are "
+                      f"not told")
+    return n
 
 
 def check_registration_listens(ctx, rep, rule='C11.H'):
